@@ -240,7 +240,9 @@ let scru_parse (b : bytes) : n option =
 (* ssri::Integrity oracle: one or more `<algo>-<base64>` entries; the tie only uses single sha256/sha512 entries *)
 let hash_parse (b : bytes) : bytes option =
   let s = string_of_bytes b in
-  let ok_b64 t = t <> "" && String.for_all (fun c -> match c with 'A'..'Z' | 'a'..'z' | '0'..'9' | '+' | '/' | '=' -> true | _ -> false) t in
+  (* ssri does not validate the digest at parse time: anything without whitespace or '?' is kept as it is *)
+  let ok_b64 t = t <> "" && String.for_all (fun c -> match c with ' ' | '\t' | '\n' | '\r' | '?' -> false | _ -> true) t in
+  if s = "" then Some b else      (* ssri parses the empty string as an Integrity without hashes and prints it back as "" *)
   match String.index_opt s '-' with
   | Some k when List.mem (String.sub s 0 k) ["sha256"; "sha512"; "sha384"; "sha1"] && ok_b64 (String.sub s (k + 1) (String.length s - k - 1)) -> Some b
   | _ -> None
